@@ -263,9 +263,9 @@ def labelflow_family():
             pass
     pres = ['형..', '형....', '혀엉.. 흣...', '형.. 형....', '형.... 형..']
     xs = ['흑...♥?💕', '흑...💕?♥', '흑...♥!💕', '항...♥?💕']
-    mids = ['', '형. 항.', '흣...', '형.. 항.']
+    mids = ['', '형. 항.', '흣...', '형.. 항.', '항...♡?', '형♡']
     ts = ['흑...💕', '흑...♥', '항...💕']
-    posts = ['', '형....', '형..', '흣...']
+    posts = ['', '형....', '형..', '흣...', '항...♡?', '항...?♡']
     js = ['흑...♥', '흑...💕', '흑...💘?♥', '흑...♥?💘', '흑...💘?💕', '항...♥?💘', '형...💘!♥',
           '항...♥?♡?', '항...♥!♡', '항...♡?♥', '흑...♥?♡', '항...💕?♡?']
     reads = ['', '흑 항... 흑... ']
@@ -319,6 +319,18 @@ def bigarith_family():
     return out
 
 
+def volume_family():
+    """pre-executed prefixes that write a lot (more than any internal buffer size) inside ONE top-level command"""
+    wide = '흐' + '으' * 8998 + '윽'
+    passbody = ' '.join(['형... 항.'] * 150)
+    K = 80
+    return ['%s %s.' % (big(5, 13), wide),                       # 9000 x 'A' on stdout from one command
+            '%s %s..' % (big(5, 13), wide),                      # the same on stderr
+            '%s %s. 형' % (big(5, 13), wide),
+            '형 흣%s💕 %s 형. 하앙... 흣.... 흑... 흣%s!💕 형.. 항.' % (dots(K), passbody, dots(K)),   # 80 passes x 150 characters
+            '흑 항... 흑... 형 흣%s💕 %s 형. 하앙... 흣.... 흑... 흣%s!💕' % (dots(K), passbody, dots(K))]
+
+
 def with_observers(texts, observers):
     for t in texts:
         for o in observers:
@@ -357,6 +369,8 @@ def run_c02(tier):
         tasks.append(('mixed', c, ['', 'ab\nc']))
     for c in chunks(bigarith_family(), 5):
         tasks.append(('bigarith', c, [''], 400))
+    for c in chunks(volume_family(), 1):
+        tasks.append(('volume', c, ['ab\nc'], 60000))
     lf = labelflow_family()
     for c in chunks(lf, 300):
         tasks.append(('labelflow', c, ['ab\nc'], 400))
